@@ -132,6 +132,12 @@ pub mod rec {
         s.set(b"verif_count", (n + 1).to_string().as_bytes());
     }
 
+    /// The funds the handler was handed, in the order it saw them.
+    pub fn touch_funds(s: &mut dyn Storage, f: &[Coin]) {
+        let t: Vec<String> = f.iter().map(|c| format!("{}{}", c.amount, c.denom)).collect();
+        s.set(b"verif_funds", t.join(",").as_bytes());
+    }
+
     pub fn resp<E: From<HandlerErr>>(name: &str, code: u32, ok: bool) -> Result<Response, E> {
         if ok {
             Ok(Response::new().add_attribute("h", name).add_attribute("code", code.to_string()).set_data(name.as_bytes()))
